@@ -495,6 +495,11 @@ class LibMixin:
         return self.b_dict_get([d, key, default], {}, node, anchor)
 
     def b_bytes_decode(self, args, kwargs, node, anchor):
+        r0 = z3.simplify(Val.r(args[0]))
+        known = self.st.ghost.get("encoded_bytes", {})
+        enc = args[1] if len(args) > 1 else kwargs.get("encoding", VStr("utf-8"))
+        if z3.is_int_value(r0) and r0.as_long() in known and (enc.eq(VStr("utf-8")) or enc.eq(VStr("utf8"))):
+            return known[r0.as_long()]        # bytes produced by encoding this very text as UTF-8
         ok = z3.Function("Utf8Decodable", Val, B)(args[0])
         if not self.ctx.branch(ok, "bytes-decodable"):
             self.raise_("UnicodeDecodeError", anchor)
@@ -812,12 +817,28 @@ class LibMixin:
         return Val.VStr(z3.Function("HexOf", Val, S)(args[0]))
 
     def b_str_encode(self, args, kwargs, node, anchor):
+        """s.encode("utf-8"[, errors]): strict -> UnicodeEncodeError unless Utf8Ok(s); "backslashreplace" never fails
+        and yields the bytes of Utf8Escape(s) (encodable; equal to s when s is encodable)."""
         f = z3.Function("Utf8Ok", S, B)
-        if not self.ctx.branch(f(Val.s(args[0])), "utf8-encodable"):
-            self.raise_("UnicodeEncodeError", anchor)
+        esc = z3.Function("Utf8Escape", S, S)
+        enc = args[1] if len(args) > 1 else kwargs.get("encoding", VStr("utf-8"))
+        errors = args[2] if len(args) > 2 else kwargs.get("errors", VStr("strict"))
+        if not (enc.eq(VStr("utf-8")) or enc.eq(VStr("utf8"))):
+            raise Unsupported("encode to %s" % enc)
+        s = Val.s(args[0])
+        if errors.eq(VStr("strict")):
+            if not self.ctx.branch(f(s), "utf8-encodable"):
+                self.raise_("UnicodeEncodeError", anchor)
+            text = args[0]
+        elif errors.eq(VStr("backslashreplace")):
+            self.ctx.assume(z3.And(f(esc(s)), z3.Implies(f(s), esc(s) == s)))
+            text = Val.VStr(esc(s))
+        else:
+            raise Unsupported("encode errors=%s" % errors)
         rid = self.st.alloc(self.table.id("bytes"))
-        self.st.set_field(z3.IntVal(rid), "$text", args[0])
+        self.st.set_field(z3.IntVal(rid), "$text", text)
         self.st.writes.pop()
+        self.st.ghost.setdefault("encoded_bytes", {})[rid] = text
         return VRef(rid)
 
     def b_str_split(self, args, kwargs, node, anchor):
